@@ -1,8 +1,14 @@
 (* C10 -- several trees in one file stay separate and individually readable.  Statements only.
-   PARTIAL: proved are the frame property (adding or modifying one tree never changes any other tree, nor the
-   header and UUID), that a new root name adds exactly one top-level tree, and the multi-root read; that each
-   tree equals its source and the list/tuple storage rules are tied by correspondence + oracle. *)
-From Emd Require Import Base.Prelude Model.H5 Model.Emd Model.Reader Generated.Tables Proofs.PFrame.
+   Proved: a save (append / append-over, any spelling) of a tree whose root name the file lacks adds exactly that tree
+   after the others; any sequence of such saves leaves header + one top-level tree per root, in order; each tree is read
+   back by its root name as saved (canon, see C01), whatever else the file holds; a read without a path reports exactly
+   the root names; the frame property (adding or modifying one tree never changes any other tree, nor the header and
+   UUID); a list / tuple of roots, unrooted nodes, arrays and dicts saved into a fresh file is stored as documented:
+   the roots given whole, everything unrooted under one shared root.  PARTIAL: list items that are rooted nodes (stored
+   alone under a copy of their root, through an emdpath append) are tied by correspondence + oracle. *)
+From Coq Require Import Permutation.
+From Emd Require Import Base.Prelude Model.H5 Model.Emd Model.Reader Generated.Tables Proofs.PTree Proofs.PFrame Proofs.PRead Proofs.PMulti.
+From Emd Require Import Model.EmdList.
 
 (* target_root: the tree a save is aimed at = the root's name, or the tree named by emdpath for a foreign root.
    `only X f f'` : header attributes equal, every top-level link other than X equal. *)
@@ -31,6 +37,64 @@ Theorem C10_multi_root_read_reports_names :
   forall f tr r1 r2 rest, rootgroups f = r1 :: r2 :: rest -> read_emd f None tr = Ok (RNames (rootgroups f)).
 Proof. exact read_multi_root. Qed.
 Print Assumptions C10_multi_root_read_reports_names.
+
+(* ---------- files holding several trees.  forest_file c ts = header + one top-level group per tree of ts, in order *)
+Theorem C10_saving_a_tree_under_a_new_root_name_adds_exactly_that_tree :
+  forall c c0 ts root md tr,
+    In md (appendmode ++ appendovermode) -> tr <> Some false ->
+    ts <> [] -> Forall (fun t => rcls t = CRoot) ts -> rcls root = CRoot -> ok_tree root -> ~ In (rname root) (map rname ts) ->
+    write_node c (H5 (forest_file c0 ts)) root [] (WA md tr None) = (Ok tt, H5 (forest_file c0 (ts ++ [root]))).
+Proof. exact save_new_tree. Qed.
+Print Assumptions C10_saving_a_tree_under_a_new_root_name_adds_exactly_that_tree.
+
+Theorem C10_any_sequence_of_such_saves_leaves_one_tree_per_root :
+  forall c c0 more ts,
+    ts <> [] -> Forall (fun t => rcls t = CRoot) (ts ++ more) -> Forall ok_tree more -> NoDup (map rname (ts ++ more)) ->
+    forall mds, length mds = length more -> Forall (fun md => In (fst md) (appendmode ++ appendovermode) /\ snd md <> Some false) mds ->
+    fold_left (fun s tm => snd (write_node c s (fst tm) [] (WA (fst (snd tm)) (snd (snd tm)) None))) (combine more mds) (H5 (forest_file c0 ts))
+    = H5 (forest_file c0 (ts ++ more)).
+Proof. exact successive_saves. Qed.
+Print Assumptions C10_any_sequence_of_such_saves_leaves_one_tree_per_root.
+
+Theorem C10_each_tree_is_read_by_its_root_name_as_saved :
+  forall c ts t,
+    NoDup (map rname ts) -> In t ts -> Forall (fun x => rcls x = CRoot) ts ->
+    rd_tree t -> rname t <> "" -> no_slash (rname t) = true ->
+    read (H5 (forest_file c ts)) (Some (rname t)) (Some true) = Ok (RTree (canon t) (ret_of (canon t))) /\
+    read (H5 (forest_file c ts)) (Some (rname t)) None = Ok (RTree (canon t) RetRoot) /\
+    read (H5 (forest_file c ts)) (Some (rname t)) (Some false) = Ok (RTree (canon_shallow t) RetRoot).
+Proof. exact read_tree_by_name. Qed.
+Print Assumptions C10_each_tree_is_read_by_its_root_name_as_saved.
+
+Theorem C10_read_without_a_path_reports_exactly_the_root_names :
+  forall c ts tr t1 t2 rest, ts = t1 :: t2 :: rest -> Forall (fun x => rcls x = CRoot) ts ->
+    exists names, read (H5 (forest_file c ts)) None tr = Ok (RNames names) /\ Permutation names (map rname ts).
+Proof. exact read_reports_root_names. Qed.
+Print Assumptions C10_read_without_a_path_reports_exactly_the_root_names.
+
+(* ---------- list / tuple arguments without rooted items, into a fresh file, any mode.
+   list_given = the Root items, in list order.  list_saved = [] if there is nothing else, otherwise the single root
+   "root_savedlist" whose children are the unrooted nodes (list order; a later one of the same name replaces the earlier)
+   followed by the arrays as Arrays named array_<i> (the next free index), and whose metadata are the dicts as
+   dictionary_<j>.  The file then holds exactly these trees: the shared root first, then the given roots.  (A list naming
+   the same unrooted node twice is refused before anything is touched.) *)
+Theorem C10_a_list_of_roots_and_unrooted_items_is_stored_as_documented :
+  forall c tops items md tr,
+    no_rooted_items items -> nodup_nat (list_unrooted_idx tops items) = true -> In md allmodes ->
+    let trees := list_saved tops items ++ list_given tops items in
+    trees <> [] -> Forall (fun t => rcls t = CRoot) trees -> Forall ok_tree trees -> NoDup (map rname trees) ->
+    write_list c Absent tops items (WA md tr None) = (Ok tt, H5 (forest_file c trees)).
+Proof. exact list_save_into_a_fresh_file. Qed.
+Print Assumptions C10_a_list_of_roots_and_unrooted_items_is_stored_as_documented.
+
+Example C10_list_example :
+  let tops := [RN CRoot "r1" 0%Z 0 [] [RN CNode "a" 0%Z 0 [] []]; RN CArray "u" 7%Z 1 [] []; RN CRoot "r2" 0%Z 0 [("m", 1%Z)] []; RN CNode "u" 0%Z 0 [] []] in
+  let items := [LTop 0 []; LTop 1 []; LArr 9%Z 2; LDict 4%Z; LTop 2 []; LTop 3 []; LArr 8%Z 1] in
+  no_rooted_items items /\ nodup_nat (list_unrooted_idx tops items) = true /\
+  list_saved tops items ++ list_given tops items =
+    [RN CRoot "root_savedlist" 0%Z 0 [("dictionary_0", 4%Z)] [RN CNode "u" 0%Z 0 [] []; RN CArray "array_0" 9%Z 2 [] []; RN CArray "array_1" 8%Z 1 [] []];
+     RN CRoot "r1" 0%Z 0 [] [RN CNode "a" 0%Z 0 [] []]; RN CRoot "r2" 0%Z 0 [("m", 1%Z)] []].
+Proof. cbv zeta. split; [repeat constructor|]. split; vm_compute; reflexivity. Qed.
 
 (* non-vacuity: appending a second tree to a one-tree file *)
 Example C10_hypotheses_satisfiable :
